@@ -71,6 +71,10 @@ package drpcstream
 // package-level error values are created by errs.Class.New at init time (never nil)
 //@ axiom termBothClosed != nil && termClosed != nil && termError != nil && sendClosed != nil
 
+// The write lock protects the reusable marshal buffer: concurrent senders must not share it.
+//@ monitor Stream.write
+//@   protects wbuf
+
 //@ func (*Stream).log
 //@   inline
 
@@ -136,7 +140,7 @@ package drpcstream
 //@ func (*Stream).Close
 //@   site (*Stream).terminate assert [C07.terminate-under-write-lock] held(s.write.Mutex) && held(s.mu.Mutex)
 //@   modifies s.id, allmem
-//@   props C03 C04 C07 C12
+//@   props C03 C04 C07 C12 C05
 //@   requires s.wr != nil && s.wr.w != nil
 //@   ghost entry wasTerm = false
 //@   ghost after:(*Signal).IsSet#1 wasTerm = ret
@@ -147,7 +151,7 @@ package drpcstream
 //@   check [C03.idempotent]     wasTerm ==> sent == 0 && err == nil
 //@   check [C03.emits-once]     !wasTerm ==> sent == 1
 //@   check [C03.monotone]       old(sTerm(s)) ==> wasTerm
-//@   check [C03.finished-check] eventAfterLast("unlock:storj.io/drpc/drpcstream.Stream.write", "call:(*Stream).checkFinished")
+//@   check [C03,C05.finished-check] eventAfterLast("unlock:storj.io/drpc/drpcstream.Stream.write", "call:(*Stream).checkFinished")
 //@   check   [C03.all-set]      !wasTerm ==> sSend(s) && sRecv(s)
 //@   ensures [C03.terminated]   sTerm(s)
 
@@ -155,7 +159,7 @@ package drpcstream
 //@   site (*Stream).terminate assert [C07.terminate-under-write-lock] held(s.write.Mutex) && held(s.mu.Mutex)
 //@   site (*Signal).Set assert [nonnil-set] arg1 != nil
 //@   modifies s.id, allmem
-//@   props C03 C04 C07 C10
+//@   props C03 C04 C07 C10 C05
 //@   requires s.wr != nil && s.wr.w != nil && serr != nil
 //@   ghost entry wasTerm = false
 //@   ghost after:(*Signal).IsSet#1 wasTerm = ret
@@ -167,7 +171,7 @@ package drpcstream
 //@   site (*inspectMutex).Lock#2 assert [C04.leaf-mu] !held(s.mu.Mutex)
 //@   check [C03.idempotent]     wasTerm ==> sent == 0 && err == nil
 //@   check [C03.emits-once]     !wasTerm ==> sent == 1
-//@   check [C03.finished-check] eventAfterLast("unlock:storj.io/drpc/drpcstream.Stream.write", "call:(*Stream).checkFinished")
+//@   check [C03,C05.finished-check] eventAfterLast("unlock:storj.io/drpc/drpcstream.Stream.write", "call:(*Stream).checkFinished")
 //@   check   [C03.all-set]      !wasTerm ==> sSend(s) && sRecv(s)
 //@   ensures [C03.terminated]   sTerm(s)
 
@@ -175,7 +179,7 @@ package drpcstream
 //@   site (*Stream).terminateIfBothClosed assert [C07.terminate-under-write-lock] held(s.write.Mutex) && held(s.mu.Mutex)
 //@   site (*Signal).Set assert [nonnil-set] arg1 != nil
 //@   modifies s.id, allmem
-//@   props C03 C04 C07 C01
+//@   props C03 C04 C07 C01 C05
 //@   requires s.wr != nil && s.wr.w != nil
 //@   ghost entry wasSend = false
 //@   ghost after:(*Signal).IsSet#1 wasSend = ret
@@ -188,7 +192,7 @@ package drpcstream
 //@   check [C03.both-closed-terminates] !wasSend && !wasTerm && old(sRecv(s)) ==> sTerm(s)
 //@   check [C03.idempotent]     wasSend || wasTerm ==> sent == 0 && err == nil
 //@   check [C03.emits-once]     !(wasSend || wasTerm) ==> sent == 1
-//@   check [C03.finished-check] eventAfterLast("unlock:storj.io/drpc/drpcstream.Stream.write", "call:(*Stream).checkFinished")
+//@   check [C03,C05.finished-check] eventAfterLast("unlock:storj.io/drpc/drpcstream.Stream.write", "call:(*Stream).checkFinished")
 //@   ensures [C03.send-closed]  sSend(s) || sTerm(s)
 
 // Cancel: nothing is emitted; cancel, send and the termination signals are set (first setter wins);
@@ -209,7 +213,7 @@ package drpcstream
 //@   site (*Stream).terminate assert [C07.terminate-under-write-lock] held(s.write.Mutex) && held(s.mu.Mutex)
 //@   site (*Signal).Set assert [nonnil-set] arg1 != nil
 //@   modifies s.id, allmem
-//@   props C03 C04 C07 C18
+//@   props C03 C04 C07 C18 C05
 //@   requires s.wr != nil && s.wr.w != nil && err != nil
 //@   ghost entry wasTerm = false
 //@   ghost after:(*Signal).IsSet#1 wasTerm = ret
@@ -220,7 +224,7 @@ package drpcstream
 //@   check [C03.busy-noop]      busy ==> sent == 0 && result1 == nil && eventCount("call:(*Signal).Set") == 0
 //@   check [C03.idempotent]     !busy && wasTerm ==> sent == 0 && result1 == nil
 //@   check [C03.emits-once]     !busy && !wasTerm ==> sent == 1
-//@   check [C03.finished-check] eventAfterLast("unlock:storj.io/drpc/drpcstream.Stream.write", "call:(*Stream).checkFinished")
+//@   check [C03,C05.finished-check] eventAfterLast("unlock:storj.io/drpc/drpcstream.Stream.write", "call:(*Stream).checkFinished")
 //@   check   [C03.all-set]      !busy && !wasTerm ==> sSend(s) && sRecv(s)
 //@   ensures [C03.terminated]   !busy ==> sTerm(s)
 
@@ -254,7 +258,7 @@ package drpcstream
 // message id and the kind, and exactly the last one is done; nothing is written once the send or
 // termination signal is seen.
 //@ func (*Stream).rawWriteLocked
-//@   props C01 C07 C03 C05
+//@   props C01 C07 C03 C05 C04
 //@   requires [C07.write-held] held(s.write.Mutex)
 //@   requires s.wr != nil && s.wr.w != nil
 //@   modifies s.id, allmem
@@ -277,25 +281,38 @@ package drpcstream
 //@   assumes "the send and term signals of a stream are only ever set with non-nil errors (asserted at every Set call site of this package: [nonnil-set] clauses)"
 //@   site (*Signal).Err assumeafter [nonnil] ret != nil
 //@   check [C01.complete] err == nil ==> emitted == len(data0) && frames >= 1
+//@   ghost entry werr = nil
+//@   ghost after:(*Writer).WriteFrame werr = ret
+//@   ghost entry cerr = nil
+//@   ghost after:(*Stream).checkCancelError cerr = ret
+//@   site (*Stream).checkCancelError assert [C04.maps-write-error] werr != nil && arg1 != nil
+//@   check [C04.cancel-error-wins] werr != nil ==> err == cerr && eventAfterLast("call:(*Writer).WriteFrame", "call:(*Stream).checkCancelError")
 //@   ensures [id] s.id.Stream == old(s.id.Stream) && s.id.Message == old(s.id.Message) + 1
 
+// A send blocked in the transport that fails because the context was cancelled reports the cancel
+// error: every transport error of a write or flush is passed through checkCancelError.
 //@ func (*Stream).rawFlushLocked
-//@   props C01 C07 C05
+//@   props C01 C07 C05 C04
 //@   requires [C07.write-held] held(s.write.Mutex)
 //@   requires s.wr != nil && s.wr.w != nil
 //@   modifies allmem
+//@   ghost entry flushed = false
+//@   ghost after:(*Writer).Flush flushed = true
+//@   ghost entry cerr = nil
+//@   ghost after:(*Stream).checkCancelError cerr = ret
+//@   check [C04.cancel-error-wins] flushed ==> err == cerr && eventAfterLast("call:(*Writer).Flush", "call:(*Stream).checkCancelError")
 
 //@ func (*Stream).RawWrite
-//@   props C01 C07 C03
+//@   props C01 C07 C03 C05
 //@   requires s.wr != nil && s.wr.w != nil
 //@   modifies s.id, allmem
-//@   check [C03.finished-check] eventAfterLast("unlock:storj.io/drpc/drpcstream.Stream.write", "call:(*Stream).checkFinished")
+//@   check [C03,C05.finished-check] eventAfterLast("unlock:storj.io/drpc/drpcstream.Stream.write", "call:(*Stream).checkFinished")
 
 //@ func (*Stream).RawFlush
-//@   props C01 C07 C03
+//@   props C01 C07 C03 C05
 //@   requires s.wr != nil && s.wr.w != nil
 //@   modifies allmem
-//@   check [C03.finished-check] eventAfterLast("unlock:storj.io/drpc/drpcstream.Stream.write", "call:(*Stream).checkFinished")
+//@   check [C03,C05.finished-check] eventAfterLast("unlock:storj.io/drpc/drpcstream.Stream.write", "call:(*Stream).checkFinished")
 
 // MsgSend: with automatic flushing a successful send leaves nothing pending in the writer.
 //@ func (*Stream).MsgSend
@@ -308,7 +325,7 @@ package drpcstream
 //@   ghost after:(*Stream).rawWriteLocked wrote = ret == nil
 //@   site (*Stream).rawWriteLocked assert [C01.kind] arg1 == drpcwire.KindMessage && held(s.write.Mutex)
 //@   check [C01.flush-after-send] err == nil && !s.opts.ManualFlush ==> wrote && flushed
-//@   check [C03.finished-check] eventAfterLast("unlock:storj.io/drpc/drpcstream.Stream.write", "call:(*Stream).checkFinished")
+//@   check [C03,C05.finished-check] eventAfterLast("unlock:storj.io/drpc/drpcstream.Stream.write", "call:(*Stream).checkFinished")
 
 // ---- receiving
 
@@ -322,7 +339,7 @@ package drpcstream
 // block on the transport is called in that window; the finished check runs after the read lock is
 // released.
 //@ func (*Stream).MsgRecv
-//@   props C01 C03 C04
+//@   props C01 C03 C04 C10 C05
 //@   requires s.wr != nil && s.wr.w != nil && enc != nil
 //@   modifies allmem
 //@   ghost entry lent = nil
@@ -333,10 +350,14 @@ package drpcstream
 //@   site (*packetBuffer).Done assert [C01.done-after-use] gerr == nil
 //@   check [C01.get-error] gerr != nil ==> err == gerr && eventCount("call:(*packetBuffer).Done") == 0
 //@   check [C04.window]    eventAfterLast("call:(*packetBuffer).Get", "call:(*packetBuffer).Done") || gerr != nil || eventCount("call:(*packetBuffer).Get") == 0
-//@   check [C03.finished-check] eventAfterLast("unlock:storj.io/drpc/drpcstream.Stream.read", "call:(*Stream).checkFinished")
+//@   ghost entry uerr = nil
+//@   ghost after:Unmarshal uerr = ret
+//@   check [C10.decode-error-returned] gerr == nil && eventCount("invoke:Unmarshal") == 1 ==> err == uerr
+//@   check [C10.buffer-released-on-decode-error] eventCount("invoke:Unmarshal") == 1 ==> eventAfterLast("invoke:Unmarshal", "call:(*packetBuffer).Done")
+//@   check [C03,C05.finished-check] eventAfterLast("unlock:storj.io/drpc/drpcstream.Stream.read", "call:(*Stream).checkFinished")
 
 //@ func (*Stream).RawRecv
-//@   props C01 C03 C04
+//@   props C01 C03 C04 C05
 //@   requires s.wr != nil && s.wr.w != nil
 //@   modifies allmem
 //@   ghost entry gerr = nil
@@ -345,7 +366,7 @@ package drpcstream
 //@   ghost after:(*packetBuffer).Get lent = ret0
 //@   check [C01.copy]      err == nil ==> len(data) == len(lent) && (len(lent) > 0 ==> fresh(data))
 //@   check [C01.get-error] gerr != nil ==> err == gerr && eventCount("call:(*packetBuffer).Done") == 0
-//@   check [C03.finished-check] eventAfterLast("unlock:storj.io/drpc/drpcstream.Stream.read", "call:(*Stream).checkFinished")
+//@   check [C03,C05.finished-check] eventAfterLast("unlock:storj.io/drpc/drpcstream.Stream.read", "call:(*Stream).checkFinished")
 
 // NewWithOptions: the shared writer is reset (frames a predecessor left unflushed are dropped) and
 // the stream starts with message id 0 on the given stream id.
